@@ -53,6 +53,24 @@ def simulate(spec, R, progset=None, instructions=None, project=None):
                 psum0 = sum(max(0.0, float(l["par"].vals[0])) for l in c["out"] if l["par"] is not None)
                 if init > 0 and not (psum0 > 0):
                     ill.append((c, 0))
+                elif init > 0 and not np.all(np.isfinite([cc["vals"][0] for cc in view.comps])):
+                    # the flush divided by a zero proportion sum although the *recorded* proportions at index 0 are positive:
+                    # possible only if the proportions changed between the flush and the recording, i.e. they are program
+                    # driven or functions of the state.  Then the values in force at the flush are not observable from the
+                    # Result; the run is flagged by NaN (as the domain restriction demands) and is not judged
+                    fw_pars = view.fw.pars
+                    unobservable = False
+                    for l in c["out"]:
+                        if l["par"] is None:
+                            continue
+                        nm = l["par"].name
+                        if progset is not None and (nm, c["pop"]) in progset.covouts:
+                            unobservable = True
+                        if nm in fw_pars.index and isinstance(fw_pars.at[nm, "function"], str):
+                            unobservable = True
+                    if unobservable:
+                        R.count("illposed_flush_with_state_dependent_proportions")
+                        ill.append((c, 0))
     if ill:
         R.count("illposed_runs")
         flagged = any(not np.all(np.isfinite(l["vals"])) for l in view.links) or any(not np.all(np.isfinite(c["vals"])) for c in view.comps)
